@@ -322,10 +322,10 @@ func c27PlainCodecs() []c27.Codec {
 					for _, ver := range []string{"0", "2", "4294967295"} {
 						other := bytes.Replace(enc, []byte(`{"version":1,`), []byte(`{"version":`+ver+`,`), 1)
 						if bytes.Equal(other, enc) {
-							return "envelope does not start with the version member"
+							return ".Envelope: does not start with the version member"
 						}
 						if _, err := command.Decode(other); err == nil {
-							return "envelope version " + ver + " accepted"
+							return ".Envelope.Version: unsupported value " + ver + " accepted"
 						}
 					}
 					return c27.Diff(v, got)
@@ -341,7 +341,7 @@ func TestVerifC27Plain(t *testing.T) {
 	defer r.Finish()
 	r.SetRule("per codec: PRNG valid values (reflection-filled structs with edge-biased integers, hostile strings, nil/empty/short slices; replication requests are sealed with the real SealProposalManifest so that Valid() holds) → round-trip equality; every strict prefix of each encoding; random mutations; header-preserving random bodies; a huge declared length written at every offset with per-call TotalAlloc metering. Non-trivial = a value the encoder accepted; distinct = (codec, phase, abstract value shape).")
 	r.Assume("a process-wide TotalAlloc delta around a batch of decode calls (serial phase, no other harness goroutines) over-approximates the allocation of each call")
-	b := c27.Budget{Values: r.N(150, 4000), MutationsPer: r.N(10, 20), HostileValues: r.N(2, 30), RandomInputs: r.N(3000, 80000), MaxTruncs: r.N(140, 1600), HostileOffs: r.N(64, 240), Workers: 6}
+	b := c27.Budget{Values: r.N(150, 4000), MutationsPer: r.N(10, 20), HostileValues: r.N(4, 40), RandomInputs: r.N(3000, 80000), MaxTruncs: r.N(140, 1600), HostileOffs: r.N(400, 1600), Workers: 6}
 	c27.Drive(r, c27PlainCodecs(), b)
 	r.Note("prefix_policy", "propose.Payload and clusternet.Header carry an opaque tail without a length: prefixes that still contain the fixed header are complete frames by construction and are counted (truncation.legit_prefix_frame), not asserted")
 	r.Note("controller_command_domain", "JSON codec: strings restricted to valid UTF-8 (encoding/json replaces invalid bytes by U+FFFD, which is outside the field domain of addresses/ids)")
